@@ -67,6 +67,12 @@ claimed = {
   text="Decides the layout clauses of 'header and metrics tables survive encoding and decoding exactly' for head, OS/2, post, maxp and hhea/hmtx headers: (fieldpair) the reader's relation 'application field <- stream bytes' equals the writer's relation 'stream bytes <- application field' for each of 80 fields, stream offsets being computed from the wire structs' layout (encoding/binary rules evaluated on go/types) or from byte-window positions; (bitpair) for each of 14 boolean fields the bits the writer sets are exactly the bits the reader expects; (fieldcover) every field of each Info struct takes part in a pairing; (bigendian) every multi-byte read/write in these packages uses shifts 8·(n-1-k) with operands wide enough for their shift (the two-halves layout of the code page range is a reviewed entry whose reader/writer byte-lane agreement is re-checked); (wiresize) announced table lengths equal wire struct sizes. A swapped, dropped or mis-sized field falsifies the round trip for every value of that field. Level 'other'.",
   note="Trusted: go/types, the syntactic dependency extraction (flow-insensitive within a function; loops, i.e. variable-length parts, are not followed), 5 reviewed entries. Not covered: derived-field definitions and query methods, numberOfHMetrics compression, caret-slope rational approximation, clamping of derived values — value-level.",
   ref="DESIGN.md §3 E9, §4 C12"),
+ "C02": dict(
+  technique="linear-fact bounds prover over go/ssa (dominating guards, type ranges, no-wrap arithmetic, loop induction, helper contracts, memory-SSA load identification, join case splits, Fourier-Motzkin with integer tightening); structure-invariant obligations; call-site precondition refutation; loop termination-argument recognition; allocation and expansion-loop bounds; panic-reachability inventory",
+  engine="boundsprove",
+  text="Decides the structural part of 'value or error, never panic or hang' for the library functions reachable from the 22 decoder entry points and lazy accessors (164 functions): (bounds) each of ~1350 index/slice/division/make sites is proven in range from the code's own checks, or is a reviewed entry with its argument (62, several bound to re-checked side conditions); (fieldinv/continv/outlinesinv) the invariants the prover assumes about decoded structures hold at every store in scope; (precond) parameter conditions under which a helper panics (ReadBytes n > 1024, Discard n < 0) are refuted at all 39 call sites; (covmono) coverage.Read inserts glyph ids in strictly increasing order, which encInfo's panic relies on; (panicreach) 9 explicit panics are closed type switches, refuted preconditions or reviewed; (loopterm) each of 182 loops has a recognised termination argument (bounded counter incl. wrap check for narrow types, shrinking or growing slice, range) or a reviewed one; (loopwork) loops that consume no input have a constant or memory-proportional trip bound and, when nested, a cumulative budget; (allocbound) every make is bounded by 2^20 elements or by data already in memory. Level 'other'.",
+  note="Trusted: go/types, go/ssa, VTA call graph, assumptions A1-A3 printed in the evidence (64-bit arithmetic does not wrap upwards, code outside the module writes module memory only through pointers it is given, type-based alias classes), the reviewed arguments. Not covered: nil dereferences and nil-map writes, type assertions without ok (none in scope), total time/allocation summed over loop iterations (only per-allocation and per-loop bounds), stack depth, goroutines; GOARCH other than amd64 for the arithmetic (int is 64-bit).",
+  ref="DESIGN.md §3 E1-E4, §4 C02"),
  "C03": dict(
   technique="static count/emit agreement, CFG ordering (must-precede), guard and natural-loop rules on go/ssa for header.Write / header.Read; wire struct sizes from go/types",
   engine="containerrules",
@@ -148,6 +154,7 @@ engines = [
  {"name": "containerrules", "path": "sfntlint/c03.go", "serves_properties": ["C03"], "kind_free_text": "count/emit, ordering, alignment, patch guard, read-back rules for the sfnt container"},
  {"name": "parserrules", "path": "sfntlint/c17.go, sfntlint/narrow.go", "serves_properties": ["C17"], "kind_free_text": "who-may-write, atomic refill, seek-first, error/no-data rules for parser.Parser"},
  {"name": "dslagree", "path": "sfntlint/c19.go", "serves_properties": ["C19"], "kind_free_text": "parser/printer table agreement, goroutine and channel discipline, loop-shape rules (E11)"},
+ {"name": "boundsprove", "path": "sfntlint/bounds.go, sfntlint/mem.go, sfntlint/intervals.go, sfntlint/boundsites.go, sfntlint/boundsrun.go, sfntlint/loopterm.go, sfntlint/allocbound.go, sfntlint/c02.go", "serves_properties": ["C02", "C05"], "kind_free_text": "linear integer prover over SSA with memory-load identification; bounds, invariants, preconditions, loop termination, allocation bounds (E1-E3)"},
  {"name": "cmaprules", "path": "sfntlint/c09.go", "serves_properties": ["C09"], "kind_free_text": "format table agreement, subtable preference order"},
  {"name": "gidsort", "path": "sfntlint/c10.go", "serves_properties": ["C10"], "kind_free_text": "old/new glyph-id sort dataflow, closure pairing, paired append, source-font read-only (E10)"},
  {"name": "dictpair", "path": "sfntlint/c13.go", "serves_properties": ["C13"], "kind_free_text": "CFF DICT operator type/default agreement (E9-DICT)"},
